@@ -707,3 +707,201 @@ Proof.
       split; [exact (inv_lim _ _ _ _ I Hp0 Ha0)|]. intros; lia.
     + unfold close_events, locksb. rewrite Htr. reflexivity.
 Qed.
+
+(** ** Part 4: blocks *)
+
+(** at every operation boundary an open contract has not reached its expiration height *)
+Definition Strict (s : state) : Prop :=
+  forall id c, get id (st_contracts s) = Some c -> c_state c = Open -> st_height s < c_exp c.
+
+Lemma new_block_inv s dt : Inv s -> Strict s -> Inv (new_block s dt).
+Proof.
+  intros I S. unfold new_block. constructor; sproj; try apply I.
+  intros id c Hg Ho. destruct (inv_openq _ I _ _ Hg Ho) as [Hq _]. split; [exact Hq|].
+  pose proof (S _ _ Hg Ho). lia.
+Qed.
+
+Definition refunded_in (l : list cid) (h : Z) (id : cid) (c : contract) : contract :=
+  if existsb (eqb id) l then close c Refunded h else c.
+
+Lemma refund_fold h : forall l s, Inv s -> NoDup l -> (forall id, In id l -> In (h, id) (st_queue s)) ->
+  let s' := fold_left (refund_one h) l s in
+  Inv s' /\ st_height s' = st_height s /\ st_params s' = st_params s /\ st_time s' = st_time s
+  /\ st_prev s' = st_prev s
+  /\ (forall e, In e (st_queue s') -> In e (st_queue s))
+  /\ (forall id, get id (st_contracts s') = option_map (refunded_in l (st_height s) id) (get id (st_contracts s))).
+Proof.
+  induction l as [|id l IH]; intros s I Hnd Hq; cbn zeta.
+  - simpl. split; [exact I|]. repeat (split; [reflexivity|]). split; [auto|].
+    intros id. unfold refunded_in. simpl. destruct (get id (st_contracts s)); reflexivity.
+  - simpl. inversion Hnd as [|? ? Hnin Hnd']; subst.
+    destruct (inv_qopen _ I h id (Hq id (or_introl eq_refl))) as (c & Hg & Ho & He).
+    subst h.
+    pose proof (refund_complete s id c I Hg Ho) as R.
+    set (s1 := dequeue (refund s id c) (c_exp c) id) in *.
+    assert (E1 : refund_one (c_exp c) s id = s1) by (unfold refund_one; rewrite Hg; reflexivity).
+    rewrite E1.
+    pose proof (close_rel_inv _ _ _ _ _ I R) as I1.
+    assert (Hq1 : forall id', In id' l -> In (c_exp c, id') (st_queue s1)).
+    { intros id' Hin. rewrite (cr_queue _ _ _ _ _ R). apply filter_In. split.
+      - apply Hq. right. exact Hin.
+      - apply negb_true_iff. apply eqb_false_iff. intros E. inversion E; subst. contradiction. }
+    destruct (IH s1 I1 Hnd' Hq1) as (I' & Hh & Hp & Ht & Hpv & Hqs & Hc).
+    split; [exact I'|]. rewrite Hh, Hp, Ht, Hpv, (cr_height _ _ _ _ _ R), (cr_params _ _ _ _ _ R).
+    split; [reflexivity|]. split; [reflexivity|].
+    assert (Htime : st_time s1 = st_time s /\ st_prev s1 = st_prev s).
+    { unfold s1, dequeue, refund. cbv zeta. sproj.
+      destruct (c_transfer c).
+      - destruct (c_amount c) as [|[d x] cs]; [split; reflexivity|]. destruct (c_dir c); [split; reflexivity| |].
+        + destruct (with_asset s d (dec_incoming x)) as [s2|] eqn:Hw; [|split; reflexivity].
+          destruct (with_asset_Some _ _ _ _ Hw) as (? & ? & ? & _ & _ & _ & ->). split; reflexivity.
+        + destruct (with_asset s d (dec_outgoing x)) as [s2|] eqn:Hw; [|split; reflexivity].
+          destruct (with_asset_Some _ _ _ _ Hw) as (? & ? & ? & _ & _ & _ & ->).
+          unfold pay_out. destruct (blocked (c_sender c)); [split; reflexivity|]. sproj.
+          destruct (send_coins _ _ _ _); split; reflexivity.
+      - unfold pay_out. destruct (blocked (c_sender c)); [split; reflexivity|].
+        destruct (send_coins _ _ _ _); split; reflexivity. }
+    destruct Htime as [-> ->]. split; [reflexivity|]. split; [reflexivity|].
+    split.
+    + intros e Hin. apply Hqs in Hin. rewrite (cr_queue _ _ _ _ _ R) in Hin. apply filter_In in Hin. tauto.
+    + intros id0. rewrite Hc. rewrite (cr_contracts _ _ _ _ _ R), get_set, (cr_height _ _ _ _ _ R).
+      unfold refunded_in. simpl. destruct (eq_dec id0 id) as [->|Hne].
+      * rewrite Hg. simpl. rewrite eqb_refl. simpl.
+        replace (existsb (eqb id) l) with false; [reflexivity|].
+        symmetry. apply not_true_iff_false. intros Hex. apply existsb_exists in Hex.
+        destruct Hex as (y & Hy & Hey). apply (proj1 (eqb_true_iff id y)) in Hey. apply Hnin. rewrite Hey. exact Hy.
+      * replace (eqb id0 id) with false by (symmetry; apply eqb_false_iff; exact Hne). reflexivity.
+Qed.
+
+Lemma get_param_of_In P p : In p P -> exists p', get_param P (ap_denom p) = Some p'.
+Proof. intros Hin. pose proof (get_param_In P p Hin). destruct (get_param P (ap_denom p)); [eauto|congruence]. Qed.
+
+Lemma tick_asset_inv el s p : Inv s -> In p (st_params s) ->
+  Inv (tick_asset el s p) /\ st_params (tick_asset el s p) = st_params s
+  /\ st_contracts (tick_asset el s p) = st_contracts s /\ st_queue (tick_asset el s p) = st_queue s
+  /\ st_height (tick_asset el s p) = st_height s /\ st_time (tick_asset el s p) = st_time s
+  /\ st_log (tick_asset el s p) = st_log s /\ st_bank (tick_asset el s p) = st_bank s.
+Proof.
+  intros I Hin. split; [|unfold tick_asset; cbv zeta; sproj; repeat split; reflexivity].
+  destruct (get_param_of_In _ _ Hin) as [p1 Hp1].
+  destruct (inv_asset _ I _ _ Hp1) as (a & Ha & Hain & Haout & Hacur & Hasup & (L1 & L2 & L3 & L4) & Hawin).
+  unfold tick_asset. cbv zeta. rewrite Ha.
+  set (keep := ap_tl p && (as_el a + el <? ap_period p)).
+  constructor; sproj; try apply I.
+  intros d p0 Hp0. rewrite get_set. destruct (eq_dec d (ap_denom p)) as [->|Hne].
+  - rewrite Hp1 in Hp0. inversion Hp0; subst p0.
+    eexists. split; [reflexivity|]. destruct keep; cbn.
+    + split; [exact Hain|]. split; [exact Haout|]. split; [exact Hacur|]. split; [exact Hasup|].
+      split; [unfold lim_ok; cbn; tauto|exact Hawin].
+    + split; [exact Hain|]. split; [exact Haout|]. split; [exact Hacur|]. split; [exact Hasup|].
+      split.
+      * unfold lim_ok. cbn. split; [lia|]. split; [lia|]. split; [lia|]. intros Htl. pose proof (L4 Htl). lia.
+      * intros _. rewrite sup_of_set, Z.eqb_refl. reflexivity.
+  - destruct (inv_asset _ I _ _ Hp0) as (a0 & Ha0 & H1 & H2 & H3 & H4 & H5 & H6).
+    exists a0. split; [exact Ha0|]. split; [exact H1|]. split; [exact H2|]. split; [exact H3|]. split; [exact H4|].
+    split; [exact H5|]. intros Htl. rewrite (H6 Htl). destruct keep; [reflexivity|].
+    rewrite sup_of_set. replace (d =? ap_denom p) with false by (symmetry; apply Z.eqb_neq; exact Hne). reflexivity.
+Qed.
+
+Definition same_core (s s' : state) : Prop :=
+  st_params s' = st_params s /\ st_contracts s' = st_contracts s /\ st_queue s' = st_queue s
+  /\ st_height s' = st_height s /\ st_time s' = st_time s /\ st_log s' = st_log s /\ st_bank s' = st_bank s.
+
+Lemma tick_fold el : forall l s, Inv s -> (forall p, In p l -> In p (st_params s)) ->
+  Inv (fold_left (tick_asset el) l s) /\ same_core s (fold_left (tick_asset el) l s).
+Proof.
+  induction l as [|p l IH]; intros s I Hl; simpl.
+  - split; [exact I|]. unfold same_core. repeat split; reflexivity.
+  - destruct (tick_asset_inv el s p I (Hl p (or_introl eq_refl))) as (I1 & E1 & E2 & E3 & E4 & E5 & E6 & E7).
+    destruct (IH (tick_asset el s p) I1) as (I2 & F1 & F2 & F3 & F4 & F5 & F6 & F7).
+    { intros p' Hp'. rewrite E1. apply Hl. right. exact Hp'. }
+    split; [exact I2|]. unfold same_core. rewrite F1, F2, F3, F4, F5, F6, F7. repeat split; assumption.
+Qed.
+
+Lemma update_windows_inv s : Inv s -> Inv (update_windows s) /\ same_core s (update_windows s).
+Proof.
+  intros I. unfold update_windows. destruct (st_params s) as [|p0 P] eqn:HP.
+  - split; [exact I|]. unfold same_core. repeat split; reflexivity.
+  - rewrite <- HP. destruct (tick_fold (st_time s - st_prev s) (st_params s) s I (fun p H => H)) as (I1 & C).
+    set (s1 := fold_left (tick_asset (st_time s - st_prev s)) (st_params s) s) in *.
+    split; [|unfold same_core in *; sproj; tauto].
+    constructor; sproj; apply I1.
+Qed.
+
+Lemma due_In h q id : In id (due h q) <-> In (h, id) q.
+Proof.
+  unfold due. rewrite in_map_iff. split.
+  - intros ([h' id'] & E & Hin). simpl in E. subst id'. apply filter_In in Hin. destruct Hin as [Hin Hh].
+    simpl in Hh. apply Z.eqb_eq in Hh. subst. exact Hin.
+  - intros Hin. exists (h, id). split; [reflexivity|]. apply filter_In. split; [exact Hin|]. simpl. apply Z.eqb_refl.
+Qed.
+
+(** what one block boundary does to a contract: refunded iff open and expiring at the new height *)
+Definition block_effect (h : Z) (c : contract) : contract :=
+  if openb c && (c_exp c =? h) then close c Refunded h else c.
+
+Lemma begin_block_spec s dt : Inv s -> Strict s ->
+  Inv (begin_block s dt) /\ Strict (begin_block s dt)
+  /\ st_height (begin_block s dt) = st_height s + 1
+  /\ st_params (begin_block s dt) = st_params s
+  /\ (forall id, get id (st_contracts (begin_block s dt))
+                 = option_map (block_effect (st_height s + 1)) (get id (st_contracts s))).
+Proof.
+  intros I S. unfold begin_block. cbv zeta.
+  pose proof (new_block_inv s dt I S) as I0.
+  set (s0 := new_block s dt) in *.
+  assert (Hh0 : st_height s0 = st_height s + 1) by reflexivity.
+  assert (Hc0 : st_contracts s0 = st_contracts s) by reflexivity.
+  assert (Hp0 : st_params s0 = st_params s) by reflexivity.
+  set (h := st_height s0) in *.
+  destruct (refund_fold h (due h (st_queue s0)) s0 I0) as (I1 & Hh1 & Hp1 & _ & _ & Hq1 & Hc1).
+  { unfold due. apply NoDup_map_filter. exact (inv_qnodup _ I0). }
+  { intros id Hin. apply due_In. exact Hin. }
+  set (s1 := fold_left (refund_one h) (due h (st_queue s0)) s0) in *.
+  destruct (update_windows_inv s1 I1) as (I2 & E1 & E2 & E3 & E4 & _).
+  assert (Hget : forall id, get id (st_contracts (update_windows s1))
+                            = option_map (block_effect (st_height s + 1)) (get id (st_contracts s))).
+  { intros id. rewrite E2, Hc1, Hc0. fold h. rewrite <- Hh0. fold h.
+    destruct (get id (st_contracts s)) as [c|] eqn:Hg; [|reflexivity]. simpl. f_equal.
+    unfold refunded_in, block_effect.
+    assert (Hex : existsb (eqb id) (due h (st_queue s0)) = openb c && (c_exp c =? h)).
+    { apply eq_true_iff_eq. rewrite existsb_exists, andb_true_iff. split.
+      - intros (y & Hy & Hey). apply (proj1 (eqb_true_iff id y)) in Hey. subst y. apply due_In in Hy.
+        destruct (inv_qopen _ I0 _ _ Hy) as (c' & Hg' & Ho' & He'). rewrite Hc0, Hg in Hg'. inversion Hg'; subst c'.
+        unfold openb. rewrite Ho'. split; [reflexivity|]. apply Z.eqb_eq. exact He'.
+      - intros [Ho He]. unfold openb in Ho. destruct (c_state c) eqn:Hst; try discriminate.
+        apply Z.eqb_eq in He. exists id. split; [|apply eqb_refl]. apply due_In. rewrite <- He.
+        apply (inv_openq _ I0 id c); [rewrite Hc0; exact Hg|exact Hst]. }
+    change (st_queue s) with (st_queue s0). rewrite Hex. reflexivity. }
+  split; [exact I2|]. split; [|split; [rewrite E4, Hh1; exact Hh0|split; [rewrite E1, Hp1; exact Hp0|exact Hget]]].
+  intros id c' Hg' Ho'. rewrite E4, Hh1. fold h.
+  rewrite Hget in Hg'. destruct (get id (st_contracts s)) as [c|] eqn:Hg; [|discriminate].
+  simpl in Hg'. inversion Hg'; subst c'; clear Hg'. unfold block_effect in *. rewrite <- Hh0 in *. fold h in Ho' |- *.
+  destruct (openb c && (c_exp c =? h)) eqn:Hb; [cbn in Ho'; discriminate|].
+  assert (Hg0 : get id (st_contracts s0) = Some c) by (rewrite Hc0; exact Hg).
+  destruct (inv_openq _ I0 _ _ Hg0 Ho') as [_ Hle]. fold h in Hle.
+  unfold openb in Hb. rewrite Ho' in Hb. simpl in Hb. apply Z.eqb_neq in Hb. lia.
+Qed.
+
+Lemma adv_spec : forall dts s, Inv s -> Strict s ->
+  let s' := fold_left begin_block dts s in
+  Inv s' /\ Strict s' /\ st_params s' = st_params s
+  /\ forall id c, get id (st_contracts s) = Some c ->
+       exists c', get id (st_contracts s') = Some c'
+         /\ (c' = c \/ (c_state c = Open /\ exists h, st_height s < h /\ c' = close c Refunded h)).
+Proof.
+  induction dts as [|dt dts IH]; intros s I S; cbn zeta; simpl.
+  - split; [exact I|]. split; [exact S|]. split; [reflexivity|]. intros id c Hg. exists c. auto.
+  - destruct (begin_block_spec s dt I S) as (I1 & S1 & Hh & Hp & Hc).
+    destruct (IH _ I1 S1) as (I2 & S2 & Hp2 & Hc2). split; [exact I2|]. split; [exact S2|].
+    split; [rewrite Hp2; exact Hp|]. intros id c Hg.
+    pose proof (Hc id) as Hcid. rewrite Hg in Hcid. simpl in Hcid.
+    destruct (Hc2 id _ Hcid) as (c' & Hg' & Hor). exists c'. split; [exact Hg'|].
+    unfold block_effect in Hor. destruct (openb c && (c_exp c =? st_height s + 1)) eqn:Hb.
+    + right. apply andb_true_iff in Hb. destruct Hb as [Ho _]. unfold openb in Ho.
+      destruct (c_state c) eqn:Hst; try discriminate. split; [reflexivity|].
+      destruct Hor as [->|[Hbad _]]; [|cbn in Hbad; discriminate].
+      exists (st_height s + 1). split; [lia|reflexivity].
+    + destruct Hor as [->|(Ho & h & Hlt & ->)]; [left; reflexivity|]. right. split; [exact Ho|].
+      exists h. split; [lia|reflexivity].
+Qed.
